@@ -1,6 +1,808 @@
-//! C12 — not built yet.
-use vcommon::Args;
+//! C12 — parsing hostile message bytes never crashes.
+//!
+//! Space (everything enumerated completely, nothing sampled):
+//!   for every message of a reference-built corpus (4 types × minimal/maximal field sets × both
+//!   byte orders × bodies; fd-carrying messages with and without the fds attached):
+//!     * every single-byte substitution over the byte alphabet
+//!       {00,01,02,04,08,'a','/',80,ff} ∪ {type and name characters} at every offset,
+//!     * every truncation length 0..len,
+//!     * every value of alphabet⁴ in the body-length word and in the fields-length word,
+//!     * the endianness byte over all 256 values, under both decoding contexts,
+//!     * thorough: every pair of substitutions inside the 16-byte fixed part,
+//!   plus every byte string of length ≤ 3 over all 256 byte values.
+//!
+//! Oracle: `Message::from_bytes` returns Err, or returns Ok(m) and `m.header()` with every field
+//! accessor, `m.body()`, `body().signature()`, `body().deserialize::<Structure>()`, `Display` and
+//! `Debug` all return. A panic is caught and reported with the operation that panicked; the sweep
+//! runs in child processes (this same binary with `--child`), each publishing a cursor through a
+//! shared mapping, so a child that dies (abort, stack overflow, OOM kill) identifies its case.
 
-pub fn main(_args: &Args) -> i32 {
-    vcommon::machinery_failure("C12: check not built yet")
+use std::{
+    collections::{BTreeMap, HashSet},
+    io::Write,
+    os::fd::OwnedFd,
+    path::{Path, PathBuf},
+};
+
+use serde_json::{json, Value as J};
+use vcommon::{catch, hash64, hex, machinery_failure, unhex, Args, Report, Tier, Violation};
+use zbus::{
+    zvariant::{
+        serialized::{Context, Data},
+        Endian, Structure,
+    },
+    Message,
+};
+
+use crate::refmsg::{self as rm, o, s, var, MsgSpec, Ty, RV};
+
+pub const ALPHA: [u8; 9] = [0x00, 0x01, 0x02, 0x04, 0x08, b'a', b'/', 0x80, 0xff];
+/// Substitution alphabet: the byte alphabet plus the characters that mean something inside header
+/// fields (type codes, name punctuation, the two endianness flags, field codes 3 and 9).
+pub const SUB: [u8; 24] = [
+    0x00, 0x01, 0x02, 0x04, 0x08, b'a', b'/', 0x80, 0xff, b's', b'o', b'g', b'u', b'v', b'y', b'(', b'{', b'h',
+    b'.', b':', b'B', b'l', 0x03, 0x09,
+];
+
+// ---------------------------------------------------------------------------------------------
+// corpus
+// ---------------------------------------------------------------------------------------------
+
+#[derive(Clone)]
+pub struct Base {
+    pub name: String,
+    pub bytes: Vec<u8>,
+    /// number of fds attached to the `Data` handed to `from_bytes`
+    pub n_fds: usize,
+}
+
+fn corpus_bodies() -> Vec<(&'static str, Vec<RV>)> {
+    vec![
+        ("unit", vec![]),
+        ("string", vec![s("hello")]),
+        (
+            "dict-sv",
+            vec![RV::Dict(Ty::S, Ty::V, vec![(s("k"), var(RV::U(1))), (s("key2"), var(s("v")))])],
+        ),
+        ("one-fd", vec![RV::H(0)]),
+        ("byte-then-u64", vec![RV::Y(1), RV::T(2)]),
+        (
+            "nested",
+            vec![
+                RV::Y(9),
+                RV::Struct(vec![
+                    RV::Array(Ty::Struct(vec![Ty::Y, Ty::V]), vec![RV::Struct(vec![RV::Y(1), var(o("/p"))])]),
+                    s("é/€"),
+                ]),
+            ],
+        ),
+        ("two-fds", vec![RV::H(0), RV::H(1)]),
+        ("error-text", vec![s("kaboom")]),
+    ]
+}
+
+pub fn spec(mtype: u8, maximal: bool, be: bool, body: &[RV], serial: u32) -> MsgSpec {
+    let mut m = MsgSpec::new(mtype, serial);
+    m.be = be;
+    m.body = body.to_vec();
+    match mtype {
+        rm::METHOD_CALL => {
+            m = m.field(rm::PATH, o("/a/b")).field(rm::MEMBER, s("Ping"));
+            if maximal {
+                m.flags = 0x4;
+                m = m
+                    .field(rm::INTERFACE, s("x.y.I"))
+                    .field(rm::DESTINATION, s("org.a.B"))
+                    .field(rm::SENDER, s(":1.7"));
+            }
+        }
+        rm::SIGNAL => {
+            m = m
+                .field(rm::PATH, o("/"))
+                .field(rm::INTERFACE, s("x.y.I"))
+                .field(rm::MEMBER, s("Sig"));
+            if maximal {
+                m = m.field(rm::DESTINATION, s(":1.5")).field(rm::SENDER, s(":1.7"));
+            }
+        }
+        rm::METHOD_RETURN => {
+            m = m.field(rm::REPLY_SERIAL, RV::U(5));
+            if maximal {
+                m.flags = 0x1;
+                m = m.field(rm::DESTINATION, s(":1.5")).field(rm::SENDER, s(":1.7"));
+            }
+        }
+        _ => {
+            m = m.field(rm::ERROR_NAME, s("x.y.E")).field(rm::REPLY_SERIAL, RV::U(5));
+            if maximal {
+                m = m
+                    .field(rm::DESTINATION, s(":1.5"))
+                    .field(rm::SENDER, s(":1.7"))
+                    .field(rm::PATH, o("/e"));
+            }
+        }
+    }
+    m
+}
+
+pub fn corpus(tier: Tier) -> Vec<Base> {
+    let bodies = corpus_bodies();
+    let mut out = vec![];
+    let mut serial = 0x0102_0304u32;
+    for mtype in [rm::METHOD_CALL, rm::METHOD_RETURN, rm::ERROR, rm::SIGNAL] {
+        for maximal in [false, true] {
+            for be in [false, true] {
+                for (bi, (bname, body)) in bodies.iter().enumerate() {
+                    // the first four bodies for every header; the rest for little-endian maximal
+                    // headers (quick) or everywhere (thorough)
+                    let everywhere = bi < 4 || tier == Tier::Thorough;
+                    if !everywhere && !(maximal && !be) {
+                        continue;
+                    }
+                    if *bname == "error-text" && mtype != rm::ERROR {
+                        continue;
+                    }
+                    serial += 1;
+                    let (bytes, fds) = spec(mtype, maximal, be, body, serial).encode();
+                    let name = format!(
+                        "{}-{}-{}-{}",
+                        match mtype {
+                            1 => "call",
+                            2 => "return",
+                            3 => "error",
+                            _ => "signal",
+                        },
+                        if maximal { "max" } else { "min" },
+                        if be { "BE" } else { "LE" },
+                        bname
+                    );
+                    if !fds.is_empty() {
+                        out.push(Base { name: format!("{name}+fds"), bytes: bytes.clone(), n_fds: fds.len() });
+                    }
+                    out.push(Base { name, bytes, n_fds: 0 });
+                }
+            }
+        }
+    }
+    out
+}
+
+// ---------------------------------------------------------------------------------------------
+// case space
+// ---------------------------------------------------------------------------------------------
+
+const A4: usize = 9 * 9 * 9 * 9;
+
+fn short_count() -> usize {
+    vcommon::enumerate::count_strings(256, 3)
+}
+
+pub struct Space {
+    pub corpus: Vec<Base>,
+    pub tier: Tier,
+    /// prefix sums: case index of the first case of corpus message i; last = start of short strings
+    starts: Vec<usize>,
+    pub total: usize,
+}
+
+fn pairs16() -> usize {
+    // unordered pairs of offsets in the fixed part × alphabet²
+    (16 * 15 / 2) * 81
+}
+
+impl Space {
+    pub fn new(tier: Tier) -> Self {
+        let corpus = corpus(tier);
+        let mut starts = vec![];
+        let mut at = 0usize;
+        for b in &corpus {
+            starts.push(at);
+            at += Self::per_message(b, tier);
+        }
+        starts.push(at);
+        let total = at + short_count();
+        Self { corpus, tier, starts, total }
+    }
+    fn per_message(b: &Base, tier: Tier) -> usize {
+        let len = b.bytes.len();
+        1 + len * SUB.len() + len + 2 * A4 + 512 + if tier == Tier::Thorough { pairs16() } else { 0 }
+    }
+    /// Materialize case `idx`: (bytes, big-endian context?, fds to attach, description, base index)
+    pub fn case(&self, idx: usize) -> (Vec<u8>, bool, usize, String, Option<usize>) {
+        let short_start = *self.starts.last().unwrap();
+        if idx >= short_start {
+            let mut sym = vec![];
+            vcommon::enumerate::nth_string(256, idx - short_start, &mut sym);
+            let bytes: Vec<u8> = sym.iter().map(|x| *x as u8).collect();
+            let be = bytes.first() == Some(&b'B');
+            return (bytes, be, 0, "short-string".into(), None);
+        }
+        let mi = match self.starts.binary_search(&idx) {
+            Ok(i) => i,
+            Err(i) => i - 1,
+        };
+        let b = &self.corpus[mi];
+        let mut k = idx - self.starts[mi];
+        let len = b.bytes.len();
+        let base_be = b.bytes[0] == b'B';
+        let mut bytes = b.bytes.clone();
+        if k == 0 {
+            return (bytes, base_be, b.n_fds, format!("{}: unmodified", b.name), Some(mi));
+        }
+        k -= 1;
+        if k < len * SUB.len() {
+            let (off, a) = (k / SUB.len(), SUB[k % SUB.len()]);
+            bytes[off] = a;
+            let be = bytes[0] == b'B';
+            return (bytes, be, b.n_fds, format!("{}: byte {off} := {a:#04x}", b.name), Some(mi));
+        }
+        k -= len * SUB.len();
+        if k < len {
+            bytes.truncate(k);
+            return (bytes, base_be, b.n_fds, format!("{}: truncated to {k} of {len}", b.name), Some(mi));
+        }
+        k -= len;
+        if k < 2 * A4 {
+            let (word, mut v) = (k / A4, k % A4);
+            let at = if word == 0 { 4 } else { 12 };
+            for j in (0..4).rev() {
+                bytes[at + j] = ALPHA[v % 9];
+                v /= 9;
+            }
+            return (
+                bytes.clone(),
+                base_be,
+                b.n_fds,
+                format!(
+                    "{}: {} word := {}",
+                    b.name,
+                    if word == 0 { "body-length" } else { "fields-length" },
+                    hex(&bytes[at..at + 4])
+                ),
+                Some(mi),
+            );
+        }
+        k -= 2 * A4;
+        if k < 512 {
+            bytes[0] = (k % 256) as u8;
+            let be = k >= 256;
+            return (
+                bytes,
+                be,
+                b.n_fds,
+                format!("{}: endianness byte := {:#04x}, {} context", b.name, k % 256, if be { "BE" } else { "LE" }),
+                Some(mi),
+            );
+        }
+        k -= 512;
+        // pairs in the fixed part
+        let (pair, ab) = (k / 81, k % 81);
+        let mut p = pair;
+        let mut i = 0usize;
+        while p >= 15 - i {
+            p -= 15 - i;
+            i += 1;
+        }
+        let j = i + 1 + p;
+        bytes[i] = ALPHA[ab / 9];
+        bytes[j] = ALPHA[ab % 9];
+        let be = bytes[0] == b'B';
+        (
+            bytes,
+            be,
+            b.n_fds,
+            format!("{}: bytes {i},{j} := {:#04x},{:#04x}", b.name, ALPHA[ab / 9], ALPHA[ab % 9]),
+            Some(mi),
+        )
+    }
+}
+
+// ---------------------------------------------------------------------------------------------
+// evaluation of one byte string
+// ---------------------------------------------------------------------------------------------
+
+#[derive(Debug, Clone)]
+pub struct Finding {
+    pub clause: &'static str,
+    pub op: &'static str,
+    pub panic: String,
+    pub loc: String,
+}
+
+fn fds_for(n: usize) -> Vec<OwnedFd> {
+    use std::os::fd::AsFd;
+    crate::c11::fd_table()
+        .iter()
+        .cycle()
+        .take(n)
+        .map(|f| f.as_fd().try_clone_to_owned().expect("dup"))
+        .collect()
+}
+
+fn err_class(e: &zbus::Error) -> String {
+    let d = format!("{e:?}");
+    let head: String = d.chars().take_while(|c| c.is_ascii_alphanumeric()).collect();
+    if head == "Variant" {
+        // one level deeper: the zvariant error kind
+        let rest = &d[head.len()..];
+        let inner: String = rest
+            .trim_start_matches('(')
+            .chars()
+            .take_while(|c| c.is_ascii_alphanumeric())
+            .collect();
+        return format!("err/Variant/{inner}");
+    }
+    format!("err/{head}")
+}
+
+/// Run the whole oracle on one byte string.
+pub fn eval(bytes: &[u8], ctx_be: bool, n_fds: usize) -> (String, Vec<Finding>) {
+    let endian = if ctx_be { Endian::Big } else { Endian::Little };
+    let ctxt = Context::new_dbus(endian, 0);
+    let data = if n_fds > 0 {
+        Data::new_fds(bytes.to_vec(), ctxt, fds_for(n_fds))
+    } else {
+        Data::new(bytes.to_vec(), ctxt)
+    };
+    let mut findings = vec![];
+    let parsed = catch(|| unsafe { Message::from_bytes(data) });
+    let m = match parsed {
+        Err(p) => {
+            findings.push(Finding {
+                clause: "from-bytes-no-panic",
+                op: "from_bytes",
+                panic: p,
+                loc: vcommon::last_panic_location(),
+            });
+            return ("panic/from_bytes".into(), findings);
+        }
+        Ok(Err(e)) => return (err_class(&e), findings),
+        Ok(Ok(m)) => m,
+    };
+    let mut run = |op: &'static str, f: &dyn Fn()| -> bool {
+        match catch(f) {
+            Ok(()) => true,
+            Err(p) => {
+                findings.push(Finding {
+                    clause: "accessors-no-panic",
+                    op,
+                    panic: p,
+                    loc: vcommon::last_panic_location(),
+                });
+                false
+            }
+        }
+    };
+    run("header", &|| {
+        let h = m.header();
+        let _ = (
+            h.message_type(),
+            h.path().map(|x| x.as_str().len()),
+            h.interface().map(|x| x.as_str().len()),
+            h.member().map(|x| x.as_str().len()),
+            h.error_name().map(|x| x.as_str().len()),
+            h.reply_serial(),
+            h.destination().map(|x| x.as_str().len()),
+            h.sender().map(|x| x.as_str().len()),
+            h.signature().to_string(),
+            h.unix_fds(),
+        );
+        let p = h.primary();
+        let _ = (p.endian_sig(), p.msg_type(), p.flags(), p.protocol_version(), p.body_len(), p.serial_num());
+        let _ = (m.message_type(), m.primary_header().serial_num(), m.recv_position());
+    });
+    let body_ok = run("body", &|| {
+        let b = m.body();
+        let _ = (b.len(), b.is_empty(), b.data().bytes().len());
+    });
+    let mut deser = "";
+    if body_ok {
+        run("body.signature", &|| {
+            let _ = m.body().signature().to_string();
+        });
+        let cell = std::cell::Cell::new("");
+        run("body.deserialize", &|| {
+            let b = m.body();
+            let r = b.deserialize::<Structure<'_>>();
+            cell.set(if r.is_ok() { "body-ok" } else { "body-err" });
+        });
+        deser = cell.get();
+    }
+    run("display", &|| {
+        let _ = format!("{m}");
+    });
+    run("debug", &|| {
+        let _ = format!("{m:?}");
+    });
+    let class = if findings.is_empty() {
+        format!("ok/{deser}")
+    } else {
+        "panic/accessor".to_string()
+    };
+    (class, findings)
+}
+
+/// Declarative features of a failing input (for known-finding identity).
+///   op           which operation panicked
+///   input_shape  structural relation between the buffer and what its own length words announce
+///   panic_site   the function (by source file) the panic came from
+///   cause        the root cause this combination is attributed to, or "unexplained"
+pub fn explain(bytes: &[u8], f: &Finding) -> BTreeMap<String, String> {
+    let mut m = BTreeMap::new();
+    m.insert("op".to_string(), f.op.to_string());
+    let mut shape = "other";
+    if bytes.is_empty() {
+        shape = "empty-input";
+    } else if bytes.len() < 16 {
+        shape = "shorter-than-fixed-part";
+    } else if bytes[0] == b'l' || bytes[0] == b'B' {
+        let w: [u8; 4] = bytes[12..16].try_into().unwrap();
+        let fl = if bytes[0] == b'l' { u32::from_le_bytes(w) } else { u32::from_be_bytes(w) } as usize;
+        let hl = 16usize.saturating_add(fl);
+        let bo = hl.saturating_add((8 - hl % 8) % 8);
+        if bytes.len() < bo {
+            // the buffer ends before the 8-aligned body offset that the fields-length word implies
+            shape = "ends-before-body-offset";
+        }
+    }
+    m.insert("input_shape".to_string(), shape.to_string());
+    // where it panicked, by function rather than by line
+    let site = if f.loc.contains("serialized/data.rs") {
+        "zvariant-Data-slice"
+    } else if f.loc.contains("message/fields.rs") {
+        "message-fields"
+    } else if f.loc.contains("message/mod.rs") {
+        "message-mod"
+    } else if f.loc.contains("message/header.rs") {
+        "message-header"
+    } else {
+        "elsewhere"
+    };
+    m.insert("panic_site".to_string(), site.to_string());
+    let cause = match (f.op, shape, site) {
+        ("from_bytes", "empty-input", "message-mod") => "first-byte-read-from-empty-buffer",
+        (_, "ends-before-body-offset", "zvariant-Data-slice") => "body-offset-beyond-buffer",
+        (_, _, "message-fields") if f.panic.starts_with("Invalid field reconstruction") => {
+            "header-field-accepted-unvalidated"
+        }
+        _ => "unexplained",
+    };
+    m.insert("cause".to_string(), cause.to_string());
+    m
+}
+
+// ---------------------------------------------------------------------------------------------
+// child
+// ---------------------------------------------------------------------------------------------
+
+struct Cursor {
+    ptr: *mut u64,
+}
+
+impl Cursor {
+    fn open(path: &Path) -> Self {
+        use std::os::fd::AsRawFd;
+        let f = std::fs::OpenOptions::new()
+            .read(true)
+            .write(true)
+            .create(true)
+            .truncate(true)
+            .open(path)
+            .unwrap_or_else(|e| machinery_failure(&format!("C12 child: cursor file: {e}")));
+        f.set_len(8).unwrap_or_else(|e| machinery_failure(&format!("C12 child: cursor file: {e}")));
+        let p = unsafe {
+            libc::mmap(
+                std::ptr::null_mut(),
+                8,
+                libc::PROT_READ | libc::PROT_WRITE,
+                libc::MAP_SHARED,
+                f.as_raw_fd(),
+                0,
+            )
+        };
+        if p == libc::MAP_FAILED {
+            machinery_failure("C12 child: mmap of the cursor failed");
+        }
+        let c = Self { ptr: p as *mut u64 };
+        c.set(u64::MAX);
+        c
+    }
+    fn set(&self, v: u64) {
+        unsafe { std::ptr::write_volatile(self.ptr, v) }
+    }
+}
+
+const CHUNK: usize = 2048;
+
+fn child_main(args: &Args) -> i32 {
+    // --child <shard> <nshards> <dir> [skip,skip,...]
+    let pos = args.extra.iter().position(|a| a == "--child").unwrap();
+    let k: usize = args.extra[pos + 1].parse().unwrap_or_else(|_| machinery_failure("C12 child: shard"));
+    let n: usize = args.extra[pos + 2].parse().unwrap_or_else(|_| machinery_failure("C12 child: nshards"));
+    let dir = PathBuf::from(&args.extra[pos + 3]);
+    let skip: HashSet<usize> = args
+        .extra
+        .get(pos + 4)
+        .map(|s| s.split(',').filter_map(|x| x.parse().ok()).collect())
+        .unwrap_or_default();
+    let space = Space::new(args.tier);
+    let cursor = Cursor::open(&dir.join(format!("cursor-{k}")));
+    let mut evals = 0u64;
+    let mut outcomes: BTreeMap<String, u64> = BTreeMap::new();
+    let mut hashes: HashSet<u64> = HashSet::new();
+    let mut kept: BTreeMap<(String, BTreeMap<String, String>), u64> = BTreeMap::new();
+    let mut violations: Vec<J> = vec![];
+    let mut violating = 0u64;
+    let mut samples: Vec<J> = vec![];
+    let n_chunks = space.total.div_ceil(CHUNK);
+    let mut chunk = k;
+    while chunk < n_chunks {
+        let lo = chunk * CHUNK;
+        let hi = (lo + CHUNK).min(space.total);
+        for idx in lo..hi {
+            if skip.contains(&idx) {
+                continue;
+            }
+            let (bytes, be, n_fds, descr, base) = space.case(idx);
+            cursor.set(idx as u64);
+            let (class, findings) = eval(&bytes, be, n_fds);
+            evals += 1;
+            *outcomes.entry(class.clone()).or_insert(0) += 1;
+            // non-trivial: the endianness check passes, i.e. the parser proper runs
+            if matches!(bytes.first(), Some(b'l') | Some(b'B')) && (bytes[0] == b'B') == be {
+                hashes.insert(hash64(&(&bytes[..], n_fds)));
+            }
+            if (idx % 40_009 == 0 || (idx - lo == 7 && chunk % 997 == 0)) && samples.len() < 4 {
+                samples.push(json!({"case": idx, "what": descr, "bytes": hex(&bytes), "outcome": class}));
+            }
+            if !findings.is_empty() {
+                violating += 1;
+            }
+            for f in findings {
+                let feats = explain(&bytes, &f);
+                let c = kept.entry((f.clause.to_string(), feats.clone())).or_insert(0);
+                *c += 1;
+                if *c <= 3 {
+                    violations.push(json!({
+                        "clause": f.clause,
+                        "features": feats,
+                        "detail": format!("{descr}: {} panicked: {} at {} (input {} bytes: {})", f.op, f.panic, f.loc, bytes.len(), hex(&bytes)),
+                        "replay": {"case": idx, "bytes": hex(&bytes), "ctx_be": be, "n_fds": n_fds,
+                                   "base": base.map(|b| space.corpus[b].name.clone()), "what": descr},
+                    }));
+                }
+            }
+        }
+        chunk += n;
+    }
+    cursor.set(u64::MAX);
+    let mut hb = Vec::with_capacity(hashes.len() * 8);
+    let mut hs: Vec<u64> = hashes.into_iter().collect();
+    hs.sort_unstable();
+    for h in hs {
+        hb.extend_from_slice(&h.to_le_bytes());
+    }
+    let res = json!({
+        "evals": evals, "outcomes": outcomes, "violations": violations, "violating_cases": violating,
+        "identities": kept.iter().map(|((c, f), n)| json!({"clause": c, "features": f, "cases": n})).collect::<Vec<_>>(),
+        "samples": samples,
+    });
+    let ok = std::fs::write(dir.join(format!("hashes-{k}")), hb).is_ok()
+        && std::fs::write(dir.join(format!("result-{k}.json")), res.to_string()).is_ok();
+    if !ok {
+        machinery_failure("C12 child: cannot write results");
+    }
+    0
+}
+
+// ---------------------------------------------------------------------------------------------
+// parent
+// ---------------------------------------------------------------------------------------------
+
+struct ShardResult {
+    res: J,
+    hashes: Vec<u64>,
+    /// cases on which a child died
+    deaths: Vec<(usize, String)>,
+}
+
+fn run_shard(exe: &Path, tier: Tier, k: usize, n: usize, dir: &Path) -> ShardResult {
+    let mut skip: Vec<usize> = vec![];
+    let mut deaths = vec![];
+    loop {
+        let _ = std::fs::remove_file(dir.join(format!("result-{k}.json")));
+        let mut cmd = std::process::Command::new(exe);
+        cmd.arg("C12")
+            .arg("--tier")
+            .arg(tier.as_str())
+            .arg("--child")
+            .arg(k.to_string())
+            .arg(n.to_string())
+            .arg(dir);
+        if !skip.is_empty() {
+            cmd.arg(skip.iter().map(|x| x.to_string()).collect::<Vec<_>>().join(","));
+        }
+        cmd.stdout(std::process::Stdio::null());
+        let out = cmd
+            .output()
+            .unwrap_or_else(|e| machinery_failure(&format!("C12: cannot spawn child: {e}")));
+        let result_path = dir.join(format!("result-{k}.json"));
+        if out.status.success() && result_path.exists() {
+            let res: J = serde_json::from_str(&std::fs::read_to_string(&result_path).unwrap_or_default())
+                .unwrap_or_else(|e| machinery_failure(&format!("C12: bad child result: {e}")));
+            let hb = std::fs::read(dir.join(format!("hashes-{k}"))).unwrap_or_default();
+            let hashes = hb
+                .chunks_exact(8)
+                .map(|c| u64::from_le_bytes(c.try_into().unwrap()))
+                .collect();
+            return ShardResult { res, hashes, deaths };
+        }
+        if out.status.code() == Some(2) {
+            machinery_failure(&format!(
+                "C12: child {k} reported a machinery failure: {}",
+                String::from_utf8_lossy(&out.stderr)
+            ));
+        }
+        // the child died: its cursor names the case
+        let cur = std::fs::read(dir.join(format!("cursor-{k}")))
+            .ok()
+            .and_then(|b| b.get(..8).map(|x| u64::from_le_bytes(x.try_into().unwrap())))
+            .unwrap_or(u64::MAX);
+        if cur == u64::MAX {
+            machinery_failure(&format!(
+                "C12: child {k} died ({:?}) outside of any case: {}",
+                out.status,
+                String::from_utf8_lossy(&out.stderr)
+            ));
+        }
+        let stderr = String::from_utf8_lossy(&out.stderr);
+        let tail: String = stderr.chars().rev().take(300).collect::<String>().chars().rev().collect();
+        deaths.push((cur as usize, format!("{:?} {}", out.status, tail.trim())));
+        skip.push(cur as usize);
+        if skip.len() > 25 {
+            machinery_failure("C12: a child died on more than 25 cases of one shard; giving up");
+        }
+    }
+}
+
+fn replay(path: &str) -> i32 {
+    let v = vcommon::load_replay(path);
+    let r = &v["replay"];
+    let bytes = unhex(r["bytes"].as_str().unwrap_or(""));
+    let be = r["ctx_be"].as_bool().unwrap_or(false);
+    let n_fds = r["n_fds"].as_u64().unwrap_or(0) as usize;
+    println!("what: {}", r["what"]);
+    println!("input ({} bytes, {} context, {} fds): {}", bytes.len(), if be { "BE" } else { "LE" }, n_fds, hex(&bytes));
+    match rm::parse_header(&bytes) {
+        Ok(ph) => println!(
+            "reference parse of the header: ok, fields_len={} body_offset={} body_len={}",
+            ph.fields_len, ph.body_offset, ph.body_len
+        ),
+        Err(e) => println!("reference parse of the header: invalid ({e})"),
+    }
+    if r["died"].as_bool() == Some(true) {
+        println!("this case killed the child process; re-running it in-process will likely kill this process too");
+        std::io::stdout().flush().ok();
+    }
+    let (class, findings) = eval(&bytes, be, n_fds);
+    println!("outcome: {class}");
+    for f in &findings {
+        println!(
+            "violation: clause={} features={:?}: {} panicked: {} at {}",
+            f.clause,
+            explain(&bytes, f),
+            f.op,
+            f.panic,
+            f.loc
+        );
+    }
+    if findings.is_empty() {
+        println!("no violation on this case");
+        0
+    } else {
+        1
+    }
+}
+
+pub fn main(args: &Args) -> i32 {
+    if args.extra.iter().any(|a| a == "--child") {
+        return child_main(args);
+    }
+    if let Some(p) = &args.replay {
+        return replay(p);
+    }
+    let report = Report::new("C12", args.tier, args.seed, "exploration");
+    let space = Space::new(args.tier);
+    // sanity of the corpus: every base message is valid under the reference parser
+    for b in &space.corpus {
+        if let Err(e) = rm::parse_header(&b.bytes) {
+            machinery_failure(&format!("C12: corpus message {} is not valid under the reference parser: {e}", b.name));
+        }
+    }
+    let dir = vcommon::verif_root().join(".run").join(format!("c12-{}", std::process::id()));
+    std::fs::create_dir_all(&dir).unwrap_or_else(|e| machinery_failure(&format!("C12: {e}")));
+    let exe = std::env::current_exe().unwrap_or_else(|e| machinery_failure(&format!("C12: current_exe: {e}")));
+    let n = vcommon::n_workers();
+    let results: Vec<ShardResult> = std::thread::scope(|sc| {
+        let hs: Vec<_> = (0..n)
+            .map(|k| {
+                let (exe, dir) = (&exe, &dir);
+                let tier = args.tier;
+                sc.spawn(move || run_shard(exe, tier, k, n, dir))
+            })
+            .collect();
+        hs.into_iter().map(|h| h.join().expect("shard thread")).collect()
+    });
+    let _ = std::fs::remove_dir_all(&dir);
+
+    let mut identities: BTreeMap<String, u64> = BTreeMap::new();
+    let mut violating = 0u64;
+    for r in &results {
+        report.eval(r.res["evals"].as_u64().unwrap_or(0));
+        if let Some(o) = r.res["outcomes"].as_object() {
+            for (k, v) in o {
+                report.outcome_n(k, v.as_u64().unwrap_or(0));
+            }
+        }
+        report.nontrivial_many(r.hashes.iter().cloned());
+        violating += r.res["violating_cases"].as_u64().unwrap_or(0);
+        for s in r.res["samples"].as_array().cloned().unwrap_or_default() {
+            report.sample(s);
+        }
+        for i in r.res["identities"].as_array().cloned().unwrap_or_default() {
+            *identities
+                .entry(format!("{} {}", i["clause"].as_str().unwrap_or(""), i["features"]))
+                .or_insert(0) += i["cases"].as_u64().unwrap_or(0);
+        }
+        for v in r.res["violations"].as_array().cloned().unwrap_or_default() {
+            let mut viol = Violation::new(
+                v["clause"].as_str().unwrap_or(""),
+                v["detail"].as_str().unwrap_or("").to_string(),
+                v["replay"].clone(),
+            );
+            if let Some(f) = v["features"].as_object() {
+                for (k, x) in f {
+                    viol = viol.feat(k, x.as_str().unwrap_or(""));
+                }
+            }
+            report.violation(viol);
+        }
+        for (idx, how) in &r.deaths {
+            let (bytes, be, n_fds, descr, base) = space.case(*idx);
+            report.eval(1);
+            report.outcome("child-died");
+            violating += 1;
+            report.violation(
+                Violation::new(
+                    "no-abort",
+                    format!("{descr}: the child process died while evaluating this input ({how}); input {}", hex(&bytes)),
+                    json!({"case": idx, "bytes": hex(&bytes), "ctx_be": be, "n_fds": n_fds, "died": true,
+                           "base": base.map(|b| space.corpus[b].name.clone()), "what": descr}),
+                )
+                .feat("op", "process")
+                .feat("input_shape", "n/a"),
+            );
+        }
+    }
+    if report.evaluations() != space.total as u64 {
+        machinery_failure(&format!(
+            "C12: {} cases evaluated but the space has {}",
+            report.evaluations(),
+            space.total
+        ));
+    }
+    report.set("violating_cases_seen", json!(violating));
+    report.set("violation_identities", json!(identities));
+    report.set("corpus_messages", json!(space.corpus.len()));
+    report.set(
+        "corpus",
+        json!(space.corpus.iter().map(|b| format!("{} ({} bytes)", b.name, b.bytes.len())).collect::<Vec<_>>()),
+    );
+    report.set("child_processes", json!(n));
+    report.assume("a panic is observed through catch_unwind; anything that kills the process is observed as the death of a child whose shared cursor names the case");
+    report.assume("the corpus is built by the reference marshaller (refmsg) and is valid under the reference parser");
+    report.finish(
+        "per corpus message: the unmodified message, every 1-byte substitution over a 24-byte alphabet at every offset, every truncation length, alphabet^4 in the body-length and fields-length words, all 256 endianness bytes under both contexts (thorough: all substitution pairs inside the fixed part); plus all byte strings of length <= 3. Non-trivial = the first byte is a valid endianness flag matching the context, so the parser proper runs (distinct inputs counted)",
+        true,
+    )
 }
